@@ -3,15 +3,16 @@
 Never commits to /repo; /repo must be clean before and is clean after."""
 import json, os, subprocess, sys
 V = os.path.dirname(os.path.dirname(os.path.abspath(__file__)))
+REPO = os.environ.get('VX_REPO', '/repo')   # a scratch worktree when run via `vp run --with-repo` (VX_REPO=$VP_RUN_REPO)
 def sh(cmd, **kw):
     return subprocess.run(cmd, shell=True, stdout=subprocess.PIPE, stderr=subprocess.STDOUT, universal_newlines=True, **kw)
 sid = sys.argv[1]
 d = os.path.join(V, 'seeded', sid)
 meta = json.load(open(os.path.join(d, 'meta.json')))
 pids = sys.argv[2:] or [meta['property']]
-if sh('git -C /repo status --porcelain --untracked-files=no').stdout.strip():
-    print('refusing: /repo has uncommitted changes'); sys.exit(2)
-r = sh('git -C /repo apply %s' % os.path.join(d, 'patch.diff'))
+if sh('git -C %s status --porcelain --untracked-files=no' % REPO).stdout.strip():
+    print('refusing: %s has uncommitted changes' % REPO); sys.exit(2)
+r = sh('git -C %s apply %s' % (REPO, os.path.join(d, 'patch.diff')))
 if r.returncode != 0:
     print('patch does not apply:', r.stdout); sys.exit(2)
 res = {}
@@ -28,7 +29,7 @@ try:
         print('== %s on seeded/%s: exit %d' % (pid, sid, p.returncode))
         print('\n'.join(lines[:12]))
 finally:
-    sh('git -C /repo checkout -- .')
+    sh('git -C %s checkout -- .' % REPO)
     # the evidence directory must describe runs on the unchanged tree only
     shutil.rmtree(os.path.join(V, 'evidence'))
     shutil.copytree(os.path.join(bak, 'evidence'), os.path.join(V, 'evidence'))
